@@ -1,7 +1,8 @@
 """C18 — async runtime registers, delivers and unregisters waitables exactly (structural clauses)."""
 from lib import mir
 from .rtcommon import (configs, rt, every_return_passes, bool_switches_on_call, discr_switches, variant_target,
-                       calls_in, ind_calls)
+                       calls_in, ind_calls, inline_sites, site_dominated, site_after, sites_on_all_paths_after,
+                       every_return_passes_site, callers_of)
 
 CLAIM = dict(
     level="other", engine="mirfacts+witness", design="DESIGN.md §5 C18",
@@ -37,6 +38,11 @@ def run(rep, tier):
     if tier == "thorough" or True:
         from .witness import run_witness
         rep.guard("R18.11", "witness", lambda: run_witness(rep, "C18", "R18.11"))
+
+
+def map_calls(g, pat):
+    """blocks of g calling a BTreeMap method matching pat on the `waitables` map (value type CabiWaitable)."""
+    return [x.bb for x in g.calls(pat) if x.arg_types and "CabiWaitable" in x.arg_types[0]]
 
 
 def one(rep, c, cfg):
@@ -76,19 +82,21 @@ def one(rep, c, cfg):
     def r2():
         f = c.method("TaskState", "deliver_waitable_event")
         rep.saw(f)
-        rm_sets = f.call_blocks("WaitableSet::remove_waitable_from_all_sets")
-        rm_map = f.call_blocks("BTreeMap::remove")
-        cbs = [x.bb for x in ind_calls(f, "callback")]
+        # inline view: private helpers of the runtime (and closures handed to them) are looked through
+        kn = ["WaitableSet::remove_waitable_from_all_sets"]
+        rm_sets = inline_sites(c, f, lambda g: g.call_blocks("WaitableSet::remove_waitable_from_all_sets"), kn)
+        rm_map = inline_sites(c, f, lambda g: map_calls(g, "BTreeMap::remove"), kn)
+        cbs = inline_sites(c, f, lambda g: [x.bb for x in ind_calls(g, "callback")], kn)
         rep.floor("R18.2", f"callback call in deliver_waitable_event {tag}", len(cbs), 1)
         rep.floor("R18.2", f"map removal in deliver_waitable_event {tag}", len(rm_map), 1)
-        for b in rm_map + cbs:
-            rep.ob("R18.2", f"deliver: remove_waitable_from_all_sets dominates bb-kind {'callback' if b in cbs else 'map-remove'} {tag}",
-                   f.set_dominates(set(rm_sets), b), "the waitable can still be in a set when delivered", f.loc(b))
-        for b in cbs:
-            rep.ob("R18.2", f"deliver: map removal dominates callback {tag}", f.set_dominates(set(rm_map), b),
-                   "callback may run while the entry is still registered", f.loc(b))
-            rep.ob("R18.2", f"deliver: callback not in a loop {tag}", not f.in_cycle(b),
-                   "completion could be delivered more than once", f.loc(b))
+        for s in rm_map + cbs:
+            rep.ob("R18.2", f"deliver: remove_waitable_from_all_sets dominates bb-kind {'callback' if s in cbs else 'map-remove'} {tag}",
+                   site_dominated(rm_sets, s), "the waitable can still be in a set when delivered", s.loc())
+        for s in cbs:
+            rep.ob("R18.2", f"deliver: map removal dominates callback {tag}", site_dominated(rm_map, s),
+                   "callback may run while the entry is still registered", s.loc())
+            rep.ob("R18.2", f"deliver: callback not in a loop {tag}", s.once(),
+                   "completion could be delivered more than once", s.loc())
         rep.ob("R18.2", f"deliver: exactly one callback site {tag}", len(cbs) == 1, f"{len(cbs)} sites", f.loc())
     rep.guard("R18.2", f"deliver {tag}", r2)
 
@@ -100,7 +108,8 @@ def one(rep, c, cfg):
                every_return_passes(f, f.call_blocks("WaitableSet::remove_waitable_from_all_sets")) and
                bool(f.call_blocks("WaitableSet::remove_waitable_from_all_sets")), "", f.loc())
         rep.ob("R18.3", f"waitable_unregister: every return passes BTreeMap::remove {tag}",
-               every_return_passes(f, f.call_blocks("BTreeMap::remove")) and bool(f.call_blocks("BTreeMap::remove")),
+               every_return_passes_site(f, inline_sites(
+                   c, f, lambda g: map_calls(g, "BTreeMap::remove"), ["WaitableSet::remove_waitable_from_all_sets"])),
                "", f.loc())
         g = c.method("SharedTaskState", "waitable_register")
         rep.saw(g)
@@ -108,7 +117,8 @@ def one(rep, c, cfg):
                every_return_passes(g, g.call_blocks("SharedTaskState::add_waitable")) and
                bool(g.call_blocks("SharedTaskState::add_waitable")), "", g.loc())
         rep.ob("R18.4", f"waitable_register: every return passes BTreeMap::insert {tag}",
-               every_return_passes(g, g.call_blocks("BTreeMap::insert")) and bool(g.call_blocks("BTreeMap::insert")),
+               every_return_passes_site(g, inline_sites(
+                   c, g, lambda h: map_calls(h, "BTreeMap::insert"), ["SharedTaskState::add_waitable"])),
                "", g.loc())
         h = c.method("SharedTaskState", "add_waitable")
         rep.saw(h)
@@ -126,19 +136,31 @@ def one(rep, c, cfg):
 
     # R18.5 who may mutate SharedTaskState.waitables
     def r5():
-        allowed = {"waitable_register", "waitable_unregister", "deliver_waitable_event"}
-        writers = set()
-        nsite = 0
+        allowed = [c.method("SharedTaskState", "waitable_register"), c.method("SharedTaskState", "waitable_unregister"),
+                   c.method("TaskState", "deliver_waitable_event")]
+
+        def may_write(f, depth=2):
+            """one of the three functions, a closure of one, or a private helper (never used as a value) that is
+            only ever called from functions that may write."""
+            if any(f is a or f.path.startswith(a.path + "::{closure") for a in allowed):
+                return True
+            if depth <= 0:
+                return False
+            callers, taken = callers_of(c, f)
+            return bool(callers) and not taken and all(may_write(h, depth - 1) for h in callers)
+        nsite = {"insert": 0, "remove": 0}
         for f in c.fns.values():
             for call in f.calls(MUT_MAP):
                 at = call.arg_types
                 if at and "CabiWaitable" in at[0]:
-                    nsite += 1
-                    writers.add(f.npath.split("::")[-1])
-                    rep.ob("R18.5", f"map mutation {mir.norm(call.callee).split('::')[-1]} in {f.npath.split('::')[-1]} {tag}",
-                           f.npath.split("::")[-1] in allowed,
+                    m = mir.norm(call.callee).split('::')[-1]
+                    if m in nsite:
+                        nsite[m] += 1
+                    rep.ob("R18.5", f"map mutation {m} in {f.npath.split('::')[-1]} {tag}", may_write(f),
                            "SharedTaskState.waitables is mutated outside register/unregister/deliver", f.loc(call.bb))
-        rep.floor("R18.5", f"mutation sites of the waitables map {tag}", nsite, 3)
+        # structural minimum: one insertion and one removal (two removals may share a helper)
+        rep.floor("R18.5", f"insert sites of the waitables map {tag}", nsite["insert"], 1)
+        rep.floor("R18.5", f"remove sites of the waitables map {tag}", nsite["remove"], 1)
     rep.guard("R18.5", f"only_writers {tag}", r5)
 
     # R18.6 Drop for WaitableOperation
@@ -185,21 +207,24 @@ def one(rep, c, cfg):
     def r8():
         f = c.method("WaitableOperation", "register_waker")
         rep.saw(f)
-        reg = [x.bb for x in ind_calls(f, "waitable_register")]
-        ins = f.call_blocks("Option::insert")
+        # inline view (private helpers such as a take-task / restore wrapper and the closure it runs)
+        kn = ["CabiTask::new", "CabiTask::unregister", "cabi::wasip3_task_set"]
+        reg = inline_sites(c, f, lambda g: [x.bb for x in ind_calls(g, "waitable_register")], kn)
+        ins = inline_sites(c, f, lambda g: g.call_blocks("Option::insert"), kn)
         rep.floor("R18.8", f"waitable_register call in register_waker {tag}", len(reg), 1)
         rep.floor("R18.8", f"Option::insert(CabiTask) in register_waker {tag}", len(ins), 1)
-        bad = [i for r in reg for i in ins if i in f.reachable(r)]
+        bad = [i for r in reg for i in ins if site_after(r, i)]
         rep.ob("R18.8", f"register_waker: the task is replaced (old task left) never after registering {tag}",
-               not bad, "Option::<CabiTask>::insert reachable after waitable_register", f.loc(reg[0]) if reg else f.loc())
+               not bad, "Option::<CabiTask>::insert reachable after waitable_register", reg[0].loc() if reg else f.loc())
         # the CabiTask stored is a clone made by CabiTask::new, and `registered` is set to Some(waitable)
-        st = f.field_stores("registered")
+        st = inline_sites(c, f, lambda g: [b for b, _, s in g.field_stores("registered") if g.stores_variant(s, "Some")], kn)
         rep.ob("R18.8", f"register_waker: records the registered waitable on the stored task {tag}",
-               any(f.stores_variant(s, "Some") for _, _, s in st), "", f.loc())
+               bool(st), "", f.loc())
         # the task pointer is restored (wasip3_task_set called again after registering)
-        sets = f.call_blocks("cabi::wasip3_task_set")
+        sets = inline_sites(c, f, lambda g: g.call_blocks("cabi::wasip3_task_set"), kn)
+        later = [s for s in sets if any(site_after(r, s) for r in reg)]
         rep.ob("R18.8", f"register_waker: wasip3_task_set restored on every path {tag}",
-               len(sets) >= 2 and all(f.all_paths_pass(r, f.returns(), [s for s in sets if s != sets[0]]) for r in reg),
+               len(sets) >= 2 and all(sites_on_all_paths_after(r, later) for r in reg),
                "", f.loc())
     rep.guard("R18.8", f"register_waker {tag}", r8)
 
@@ -263,8 +288,9 @@ def one(rep, c, cfg):
     def r12():
         f = c.method("WaitableOperation", "unregister_waker")
         rep.saw(f)
-        via_task = f.call_blocks("CabiTask::unregister")
-        via_cur = [x.bb for x in ind_calls(f, "waitable_unregister")]
+        kn = ["CabiTask::unregister"]
+        via_task = inline_sites(c, f, lambda g: g.call_blocks("CabiTask::unregister"), kn)
+        via_cur = inline_sites(c, f, lambda g: [x.bb for x in ind_calls(g, "waitable_unregister")], kn)
         rep.ob("R18.12", f"unregister_waker: every return passes an unregister call {tag}",
-               bool(via_task) and bool(via_cur) and every_return_passes(f, via_task + via_cur), "", f.loc())
+               bool(via_task) and bool(via_cur) and every_return_passes_site(f, via_task + via_cur), "", f.loc())
     rep.guard("R18.12", f"unregister_waker {tag}", r12)
